@@ -241,6 +241,18 @@ impl TypedProgram {
         let mut circuit = CircuitBuilder::new(input_gates, const_sizes.clone(), builder_opts);
         // in source order (not in the order of the hash map): a constant may refer to an earlier one
         for (const_name, const_def) in sorted_const_defs {
+            // later constants may refer to this one by name
+            match const_def.ty {
+                Type::Unsigned(_) => {
+                    let n = resolve_const_expr_unsigned(&const_def.value, &consts_unsigned);
+                    consts_unsigned.insert(const_name.clone(), n);
+                }
+                Type::Signed(_) => {
+                    let n = resolve_const_expr_signed(&const_def.value, &consts_signed);
+                    consts_signed.insert(const_name.clone(), n);
+                }
+                _ => {}
+            }
             let ConstExpr(expr, _) = &const_def.value;
             match expr {
                 ConstExprEnum::True => env.let_in_current_scope(const_name.clone(), vec![1]),
@@ -331,11 +343,12 @@ macro_rules! make_resolve_const_function {
         ) -> $const_ty {
             match expr {
                 ConstExprEnum::NumUnsigned(n, _) => *n as $const_ty,
+                ConstExprEnum::NumSigned(n, _) => *n as $const_ty,
                 ConstExprEnum::ExternalValue { party, identifier } => *consts_unsigned
                     .get(&format!("{party}::{identifier}"))
                     .unwrap(),
                 ConstExprEnum::Max(args) => {
-                    let mut result = 0;
+                    let mut result = <$const_ty>::MIN;
                     for arg in args {
                         result = max(result, $fn_ident(arg, consts_unsigned));
                     }
@@ -360,8 +373,8 @@ macro_rules! make_resolve_const_function {
                 ConstExprEnum::ConstExprIdent(ident) => *consts_unsigned
                     .get(ident)
                     .expect("Identifier existence checked during type cheking"),
-                ConstExprEnum::True | ConstExprEnum::False | ConstExprEnum::NumSigned(_, _) => {
-                    panic!("Not a signed const expr: {expr:?}")
+                ConstExprEnum::True | ConstExprEnum::False => {
+                    panic!("Not a number const expr: {expr:?}")
                 }
             }
         }
